@@ -8,6 +8,13 @@ UNIT = dict(
         option_unfold=True,
         subst=[("Trie<String, Ignore>", "TrieS"), ("Trie::new()", "TrieS::new()"), ("PathBuf", "PathS"), ("&Path", "&PathS")],
     ),
+    # the file-reading head of IgnoreFilter::new (a stream of futures) is outside the extraction subset: the order in which the file contents reach the
+    # proved per-file loop is pinned structurally (D17: a FuturesUnordered delivered them in read-completion order) and replayed on the real code
+    structural=[
+        dict(id="C03.structure.listed_files_are_read_in_their_listed_order", file=F, impl="impl IgnoreFilter", count_in_fn="new", pattern=".collect::<FuturesOrdered<_>>() .collect::<Vec<_>>()", expect=1,
+             why="files applying in the same directory feed one builder, where a later line takes precedence: their contents must reach the loop in listed order, on every construction"),
+        dict(id="C03.structure.no_completion_ordered_collection_in_the_filter", file=F, count_in_file=True, pattern="FuturesUnordered", expect=0, why="see above"),
+    ],
     extract=[
         dict(id="ProjectType", kind="type", src="crates/project-origins/src/lib.rs", name="ProjectType", structural=True),
         dict(id="IgnoreFile", kind="type", src="crates/ignore-files/src/lib.rs", name="IgnoreFile", structural=True, add_derive=["Copy"]),
